@@ -5,18 +5,23 @@ from gen import Gen
 from seqdiff import run_seq
 from seqprop import audit, coverage
 
-LEVEL = "translation_validation"
+LEVEL = "proof"
 COQ_TARGETS = ("props/C01.vo",)
-THEOREMS = ['C01_write_point_read_partial', 'C01_gc_keeps_newest_partial', 'C01_point_read_agrees_with_scan_partial',
+THEOREMS = ['C01_step_refines', 'C01_refines_reference_map', 'C01_reads_refine', 'C01_maintenance_invisible', 'C01_scan_is_the_sorted_map',
+            'C01_invariant_reachable', 'C01_gc_stream_keeps_values', 'C01_refines_example',
+            'C01_write_point_read_partial', 'C01_gc_keeps_newest_partial', 'C01_point_read_agrees_with_scan_partial',
             'C01_reads_agree', 'C01_reads_agree_example', 'C01_shadowing_refuted_without_recency',
             'C01_db_reads_agree', 'C01_db_reads_agree_example']
+
+# keyspace configurations drawn per keyspace: standard, key-value separation (threshold 1 / 8 bytes), FIFO with a limit that never evicts
+CONFIGS = ["", "", "blob=8", "fifo=4000000000", "blob=1"]
 
 
 def programs(seed, n, nops):
     out = []
     for i in range(n):
         mode = ["plain", "plain", "sw", "occ"][i % 4]
-        g = Gen(seed * 100003 + i, mode=mode, nks=1 + i % 3, sealing=(2 if i >= n - max(8, n // 20) else 0),
+        g = Gen(seed * 100003 + i, mode=mode, nks=1 + i % 3, sealing=(2 if i >= n - max(8, n // 20) else 0), configs=CONFIGS,
                 weights=dict(reopen=0, snap=0, it=0, tx=0, txop=0, gc=0.5, ks=0.3, delks=0, ingest=2, clear=1, major=1))
         out.append(g.program(nops))
     return out
@@ -31,8 +36,8 @@ def run(rep, tier, seed, build):
              "generated programs over 1-3 keyspaces (plain / single-writer / optimistic databases), random placement of "
              "rotate/step/drain/major between operations; each operation's result is compared between implementation, "
              "model(as_is) and oracle(ideal); non-trivial = uses >= 4 distinct operation kinds, distinct by operation-kind "
-             "sequence; the obligations counted are the PARTIAL theorems of props/C01.v",
-             dict(partial_theorems=THEOREMS))
+             "sequence; the obligations counted are the theorems of props/C01.v (refinement to reference maps, scans, GC stream)",
+             dict(theorems=THEOREMS))
 
 
 def replay(rep, path, build):
